@@ -40,6 +40,16 @@ chk("C10", "exploration", "runtime monitoring: shadow-cursor oracle (bytes.Reade
     "Images of known files with sizes around the unit boundaries are built by the library for fat12/16/32, ext4, iso9660 (plain/Rock Ridge/Joliet) and squashfs (fragments/no fragments/gzip); seeded sequences of Read (sizes 0..1 MiB) and Seek (all whences, negative and past-EOF targets) then Close/Read/Seek are checked call by call against a shadow cursor over the known bytes.",
     "Short reads are accepted if they make progress; both EOF conventions of io.Reader are accepted.")
 
+chk("C11", "exploration", "runtime monitoring: write sentinel / write log on the instrumented store and image hash around seeded interleavings of mutating and reading calls",
+    "Prebuilt images of every filesystem and table type are opened read-only through file.New(readOnly), a backend whose Writable() fails, diskfs.Open(ReadOnly) and OpenFromPath(readOnly), and through a writable backend for the reading-calls clause and for finalized ISO/squashfs images; every mutating entry point must return an error and cause no write event, reading entry points must cause no write event, and the image hash must be unchanged.",
+    "For the two real-path routes the evidence is the file hash before/after (no per-call write log). On a writable disk, disk-level mutators (Partition, CreateFilesystem) are legitimate and are only required to fail on read-only routes.")
+chk("C12", "exploration", "runtime monitoring: create-then-reopen recognition oracle over a configuration grid incl. stale bytes of every other filesystem type",
+    "disk.CreateFilesystem for every type on whole disk / GPT partition / MBR partition across sizes and labels, then a freshly opened disk on the same bytes must report the table type, the filesystem type, the label and the content; every ordered pair (previous type -> new type) shares a range without wiping; blank ranges must give the unknown-filesystem error.",
+    "Refusals by CreateFilesystem are observations. Type pairs that cannot share a disk (sector size constraints) are not driven.")
+chk("C14", "exploration", "runtime monitoring: differential execution in two separate processes 2.2 s apart (and at different start offsets) + wall-clock leak amplifier over decoded timestamps",
+    "The same seeded FAT history is run with the reproducible option and a fixed SOURCE_DATE_EPOCH in two worker processes started 2.2 s apart, in half of the pairs at different start offsets; the volume byte ranges must hash equal and no timestamp decoded from the image by the independent reader may lie near the wall clock. The same GPT/MBR table written twice gives identical bytes; Read followed by Write changes nothing.",
+    "The system clock cannot be changed in the sandbox: 'regardless of wall-clock time' is decided for the separation produced plus the leak amplifier.")
+
 props = [json.loads(l)['id'] for l in open('/verif/properties.jsonl')]
 pending_reason = "check not built yet (work in progress in the order of DESIGN.md §9); runtime monitoring applies to this property"
 hooks_commits = []
